@@ -278,8 +278,17 @@ func fundingTx(cbOut wire.OutPoint, cbVal int64, salt int) *wire.MsgTx {
 	return tx
 }
 
+// tmpBase prefers a memory-backed directory: every case copies and reopens a
+// database, which is dominated by fsync on a disk.
+func tmpBase() string {
+	if st, err := os.Stat("/dev/shm"); err == nil && st.IsDir() {
+		return "/dev/shm"
+	}
+	return ""
+}
+
 func buildWorld(id int) (*world, error) {
-	dir, err := os.MkdirTemp("", fmt.Sprintf("c12world%d-", id))
+	dir, err := os.MkdirTemp(tmpBase(), fmt.Sprintf("c12world%d-", id))
 	if err != nil {
 		return nil, err
 	}
@@ -335,7 +344,25 @@ func buildWorld(id int) (*world, error) {
 var (
 	worldMu sync.Mutex
 	worlds  = map[int]*world{}
+	shared  = map[int]*chainInst{}
 )
+
+// getShared returns the long-lived chain instance of a world, used by the
+// cases that never change the chain (no reorganisation, no ProcessBlock).
+func getShared(id int) *chainInst {
+	w := getWorld(id)
+	worldMu.Lock()
+	defer worldMu.Unlock()
+	if ci, ok := shared[id]; ok {
+		return ci
+	}
+	ci, err := w.instantiate()
+	if err != nil {
+		panic(err)
+	}
+	shared[id] = ci
+	return ci
+}
 
 func getWorld(id int) *world {
 	worldMu.Lock()
@@ -355,6 +382,10 @@ func getWorld(id int) *world {
 func CleanupWorlds() {
 	worldMu.Lock()
 	defer worldMu.Unlock()
+	for _, ci := range shared {
+		ci.close()
+	}
+	shared = map[int]*chainInst{}
 	for _, w := range worlds {
 		os.RemoveAll(w.dir)
 	}
@@ -388,7 +419,7 @@ func copyDir(src, dst string) error {
 
 // instantiate opens a private copy of the world's chain.
 func (w *world) instantiate() (*chainInst, error) {
-	dir, err := os.MkdirTemp("", "c12case-")
+	dir, err := os.MkdirTemp(tmpBase(), "c12case-")
 	if err != nil {
 		return nil, err
 	}
